@@ -62,12 +62,12 @@ def tree_hash(extra=()):
     return h.hexdigest()[:20]
 
 
-def gen_config(incdir, tbb=True, mpi=True):
+def gen_config(incdir, tbb=True, mpi=True, logging=False):
     d = os.path.join(incdir, "parmcb")
     os.makedirs(d, exist_ok=True)
     src = open(os.path.join(REPO, "include/parmcb/config.hpp.in")).read()
     on = {"PARMCB_HAVE_BOOST": True, "PARMCB_HAVE_TBB": tbb, "PARMCB_HAVE_MPI": mpi,
-          "PARMCB_LOGGING": False, "PARMCB_INVARIANTS_CHECK": True}
+          "PARMCB_LOGGING": logging, "PARMCB_INVARIANTS_CHECK": True}
 
     def rep(m):
         name = m.group(1)
@@ -926,6 +926,11 @@ def run_c19(pid, tier):
                 continue
             tus = [("on", True, "g++", [a, c])]
             samejobs.append((tus, pool.submit(H.check_program, b, tus, False)))
+    # class 2e: the repository's PARMCB_LOGGING option switched on: one object per header with its snippet (instantiates the
+    # logging code paths), all pairs linked
+    logjobs = []
+    for h in hs:
+        logjobs.append((h, pool.submit(b.compile, [h], "log", True, "g++", False)))
     # class 2d: the snippets instantiated with int edge weights (the second weight type the properties name), syntax only
     intjobs = []
     for h in hs:
@@ -977,6 +982,26 @@ def run_c19(pid, tier):
         nontrivial.add(H.program_text(tus))
         if not ok:
             record(("C19/%s | %s/off/does-not-link" % (tus[0][3][0].replace("parmcb/", ""), tus[1][3][0].replace("parmcb/", "")), H.first_error(err)), tus)
+    logobjs = {}
+    for h, f in logjobs:
+        ok, obj, err = f.result()
+        evaluations += 1
+        classes["use-object-config-logging"] = classes.get("use-object-config-logging", 0) + 1
+        if not ok:
+            record(("C19/%s/log-g++/does-not-compile" % h.replace("parmcb/", ""), H.first_error(err)), [("log", True, "g++", [h])])
+        else:
+            logobjs[h] = obj
+    logpairs = []
+    for a, c in itertools.combinations_with_replacement(sorted(logobjs), 2):
+        tus = [("log", True, "g++", [a]), ("log", True, "g++", [c])]
+        logpairs.append((tus, pool.submit(b.link, [logobjs[a], logobjs[c]])))
+    for tus, f in logpairs:
+        ok, err = f.result()
+        evaluations += 1
+        classes["pair-link-config-logging"] = classes.get("pair-link-config-logging", 0) + 1
+        nontrivial.add(H.program_text(tus))
+        if not ok:
+            record(("C19/%s | %s/log/does-not-link" % (tus[0][3][0].replace("parmcb/", ""), tus[1][3][0].replace("parmcb/", "")), H.first_error(err)), tus)
     for tus, f in intjobs:
         evaluations += 1
         classes["instantiation-int-weights"] = classes.get("instantiation-int-weights", 0) + 1
@@ -1049,7 +1074,7 @@ def run_c19(pid, tier):
                     violations_found=[dict(key=k, message=m, replay=p) for k, m, p in violations])
     write_evidence(pid, tier, sd, "exploration", coverage,
                    ["instantiation snippets cover the documented entry points of each header, not every template",
-                    "configuration 'off' = PARMCB_HAVE_TBB/PARMCB_HAVE_MPI undefined (system headers still installed)"],
+                    "configuration 'off' = PARMCB_HAVE_TBB/PARMCB_HAVE_MPI undefined (system headers still installed); 'log' = all on plus PARMCB_LOGGING"],
                    time.time() - t0, len(violations))
     for k, m, p in violations:
         print("VIOLATION property=%s replay=%s" % (pid, p))
@@ -1211,7 +1236,11 @@ C07_SUBRUNS = [
     # harness, property of that harness, env, shards(quick, thorough), cases(quick, thorough)
     ("h_exact", "C07E", {"VERIF_MAXN": "14"}, (6, 16), (2000, 20000)),
     ("h_approx", "C07A", {"VERIF_MAXN": "14"}, (4, 12), (2000, 15000)),
+    ("h_exact", "C07E", {"VERIF_MAXN": "100", "VERIF_MAXM": "220"}, (2, 8), (30, 400)),   # components with more than 64 vertices
+    ("h_approx", "C07A", {"VERIF_MAXN": "90", "VERIF_MAXM": "200"}, (1, 4), (30, 400)),
     ("h_comp", "C12", {"VERIF_MAXN": "12"}, (1, 4), (1500, 8000)),
+    ("h_comp", "C12", {"VERIF_MAXN": "110", "VERIF_MAXM": "240"}, (1, 4), (60, 600)),
+    ("h_comp", "C14", {"VERIF_MAXN": "100", "VERIF_MAXM": "200"}, (1, 2), (20, 300)),
     ("h_comp", "C13", {"VERIF_MAXN": "24"}, (1, 4), (3000, 20000)),
     ("h_comp", "C14", {"VERIF_MAXN": "12"}, (1, 4), (1000, 6000)),
     ("h_comp", "C16", {"VERIF_MAXN": "24"}, (1, 4), (3000, 20000)),
